@@ -1,0 +1,49 @@
+//go:build verif
+
+// Contracts for package event, read by the verification-condition generator in
+// /verif (govc).  Comment-only.
+
+package event
+
+// Representation invariant of Event: subscriber ids are pairwise distinct and
+// below nextID.  Written out in the contracts that need it (spec function over
+// the receiver's fields).
+//@ spec func specEventInv(e ptr) bool = (forall i int, j int :: 0 <= i && i < j && j < len(e.subscribers) ==> e.subscribers[i].id != e.subscribers[j].id) && (forall i int :: 0 <= i && i < len(e.subscribers) ==> e.subscribers[i].id < e.nextID)
+
+//@ props C19 C16
+//@ func Event.Subscribe
+//@   nopanic
+//@   requires specEventInv(e) && e.nextID < 18446744073709551615
+//@   ensures specEventInv(e)
+//@   ensures len(e.subscribers) == old(len(e.subscribers)) + 1
+//@   ensures e.subscribers[len(e.subscribers)-1].id == old(e.nextID) && e.subscribers[len(e.subscribers)-1].fn == fn
+//@   ensures forall k int :: 0 <= k && k < old(len(e.subscribers)) ==> e.subscribers[k].id == old(e.subscribers[k].id) && e.subscribers[k].fn == old(e.subscribers[k].fn)
+
+// The closure returned by Subscribe is verified against an ARBITRARY later
+// state of the event satisfying the invariant (any length, any content of the
+// subscriber list): that is how "unsubscribing in any order" is covered
+// without enumerating orders.  It removes exactly the entry with its id and
+// keeps every other entry, in order.
+//@ props C19 C16
+//@ func Event.Subscribe$1
+//@   nopanic
+//@   requires specEventInv(e)
+//@   ensures specEventInv(e)
+//@   ensures forall k int :: 0 <= k && k < len(e.subscribers) ==> e.subscribers[k].id != id
+//@   ensures (forall k int :: 0 <= k && k < old(len(e.subscribers)) ==> old(e.subscribers[k].id) != id) ==> len(e.subscribers) == old(len(e.subscribers)) && (forall k int :: 0 <= k && k < len(e.subscribers) ==> e.subscribers[k].id == old(e.subscribers[k].id) && e.subscribers[k].fn == old(e.subscribers[k].fn))
+//@   ensures forall p int :: 0 <= p && p < old(len(e.subscribers)) && old(e.subscribers[p].id) == id ==> len(e.subscribers) == old(len(e.subscribers)) - 1 && (forall k int :: 0 <= k && k < p ==> e.subscribers[k].id == old(e.subscribers[k].id) && e.subscribers[k].fn == old(e.subscribers[k].fn)) && (forall k int :: p <= k && k < len(e.subscribers) ==> e.subscribers[k].id == old(e.subscribers[k+1].id) && e.subscribers[k].fn == old(e.subscribers[k+1].fn))
+//@   loop 1 invariant rangeidx <= len(e.subscribers) && (forall k int :: 0 <= k && k < rangeidx ==> e.subscribers[k].id != id)
+//@   loop 1 invariant len(e.subscribers) == old(len(e.subscribers)) && e.nextID == old(e.nextID) && (forall k int :: 0 <= k && k < len(e.subscribers) ==> e.subscribers[k].id == old(e.subscribers[k].id) && e.subscribers[k].fn == old(e.subscribers[k].fn))
+
+//@ props C19 C16
+//@ func New
+//@   nopanic
+//@   ensures result != nil && specEventInv(result) && len(result.subscribers) == 0
+
+// Fire does not change the subscriber list (each listener is started in its own
+// goroutine; the goroutines themselves are not executed by the verifier).
+//@ props C19 C16
+//@ func Event.Fire
+//@   nopanic
+//@   ensures len(e.subscribers) == old(len(e.subscribers)) && e.nextID == old(e.nextID)
+//@   ensures forall k int :: 0 <= k && k < len(e.subscribers) ==> e.subscribers[k].id == old(e.subscribers[k].id) && e.subscribers[k].fn == old(e.subscribers[k].fn)
